@@ -151,3 +151,32 @@ func verif_C19_limit() {
 		verifAssert(be.count("Mail") == 0, "C19.nothing-after-too-long-line")
 	}
 }
+
+// verif_C19_line8: command lines containing 8-bit octets: one arbitrary
+// non-ASCII Unicode scalar (case mapping executed exactly from
+// unicode.CaseRanges) or one arbitrary lone octet >= 0x80 (invalid UTF-8), at
+// the start or inside a command word.
+func verifLine8Harness(prop string) {
+	var mid string
+	if nondetBool() {
+		r := nondetRune()
+		assume(verifValidScalar(r) && r >= 0x80)
+		mid = string(r)
+	} else {
+		b := nondetByte()
+		assume(b >= 0x80)
+		mid = string([]byte{b})
+	}
+	line := []string{mid + "OOP", "NO" + mid + "P", "MAIL FROM:<a" + mid + "@v>", "EHLO " + mid}[verifChoice(4)]
+	be := &vbackend{}
+	s, lg := verifServer(be)
+	in := "EHLO c\r\n" + line + "\r\nNOOP\r\n"
+	vc, _, err := verifServe(s, []byte(in), io.EOF)
+	reps, wf := verifParseReplies(vc.out)
+	verifObserve(prop+".l8", line, wf, len(reps), lg.lines)
+	verifAssert(err == nil && lg.lines == 0 && verifPanicEvents() == 0, prop+".8bit-no-crash")
+	verifAssert(wf && len(reps) == 4 && reps[3].code == 250, prop+".8bit-one-reply-per-line")
+	verifReach(prop + ".8bit-end")
+}
+
+func verif_C19_line8() { verifLine8Harness("C19") }
